@@ -517,9 +517,9 @@ def _native_tasks(seed, thorough):
             t.append({"kind": "native", "name": name, "call": "marginal_cdf", "seed": s, "dim": 1, "quantiles": [0.02, 0.5, 0.98] if thorough else ([0.1, 0.9] if full else [0.6])})
             t.append({"kind": "native", "name": name, "call": "roundtrip", "seed": s, "dim": 1, "p": [0.001, 0.05, 0.5, 0.999] if thorough else ([0.05, 0.5] if full else [0.9])})
     if thorough:
-        t.append({"kind": "native", "name": "3d_chain", "call": "marginal_pdf", "seed": seed, "dim": 2, "quantiles": [0.5]})
-        t.append({"kind": "native", "name": "3d_fork", "call": "marginal_pdf", "seed": seed, "dim": 1, "quantiles": [0.5]})
-        t.append({"kind": "native", "name": "3d_uu1", "call": "marginal_pdf", "seed": seed, "dim": 2, "quantiles": [0.3]})
+        for name, dim in (("3d_chain", 2), ("3d_chain", 1), ("3d_fork", 1), ("3d_fork", 2), ("3d_uu0", 2), ("3d_uu1", 2), ("3d_u0u", 1)):
+            t.append({"kind": "native", "name": name, "call": "marginal_pdf", "seed": seed, "dim": dim, "quantiles": [0.5]})
+        t.append({"kind": "native", "name": "3d_chain", "call": "marginal_pdf", "seed": seed, "dim": 2, "quantiles": [0.02, 0.97]})
     return t
 
 
@@ -537,7 +537,7 @@ def run(tier, seed):
         names = list(MODELS)
         model_inputs = []
         for name in names:
-            reps = 3 if thorough else 1
+            reps = 5 if thorough else 1
             for r in range(reps):
                 model_inputs.append({"name": name, "seed": int(rng.integers(0, 2**31)), "n_sample": 200000})
         mfuts = [(mi, pool.submit(evaluate, mi)) for mi in model_inputs]
@@ -550,7 +550,7 @@ def run(tier, seed):
             checks = f.result()
             rec.book(checks, mi, key=(mi["name"], mi["seed"]), sample=first)
             first = False
-        rec.begin("native scipy nquad (2-D models; thorough: one 3-D marginal_pdf point for three structures)", f"{len(tasks)} calls: cdf (array/list/row), marginal_pdf, marginal_cdf, "
+        rec.begin("native scipy nquad (2-D models; thorough: 3-D marginal_pdf at 1-3 points for every conditional coordinate of five structures)", f"{len(tasks)} calls: cdf (array/list/row), marginal_pdf, marginal_cdf, "
                   "marginal_cdf(marginal_icdf(p)); native 3-D cdf/marginal_cdf are infeasible (460 s / > 10 min per point)", rule)
         for t, f in futs:
             rec.book(f.result(), t, key=str(sorted((k, str(v)) for k, v in t.items())), sample=False)
